@@ -343,6 +343,64 @@ pub fn c14(tier: Tier, seed: u64) -> Verdict {
         });
         merged.merge(m);
     }
+    // (2c) group-structured values: the decimal text cut into groups of 2, 4, 8, 9 or 19 digits (the chunk sizes a
+    // fast writer works with), every group drawn from the values that are special inside a group: 0, 1, 9, 10,
+    // 10^(w-1) -1 / +0 / +1, 10^w - 1, round numbers with few significant digits, a random filler
+    if merged.violation.is_none() {
+        let per_shard = tier.pick(300_000, 3_000_000);
+        let strat = || (0usize..24, select(vec![2u32, 4, 8, 9, 19]), any::<u128>(), any::<u64>(), any::<bool>()).boxed();
+        let m = run_sharded("C14", seed, 4, per_shard, strat, |&(t, w, picks, filler, neg), _cur| {
+            let mut st = CaseStats::default();
+            let (min, max) = int_range(t);
+            let neg = neg && min != 0;
+            let lim = if neg { min.unsigned_abs() } else { max };
+            let b = 10u128.pow(w);
+            let specials = |k: u128, fill: u128| -> u128 {
+                match k % 12 {
+                    0 => 0,
+                    1 => 1,
+                    2 => 9,
+                    3 => 10,
+                    4 => b / 10 - 1,
+                    5 => b / 10,
+                    6 => b / 10 + 1,
+                    7 => b - 1,
+                    8 => 1000 % b,
+                    9 => 10_000 % b,
+                    10 => (b / 100).max(1) * (1 + fill % 9),
+                    _ => fill % b,
+                }
+            };
+            // most significant group first; stop before leaving the type's range
+            let mut mag: u128 = 0;
+            let mut p = picks;
+            let mut f = filler as u128;
+            for _ in 0..(39 / w + 1) {
+                let g = specials(p % 12, f);
+                p /= 12;
+                f = f.wrapping_mul(6364136223846793005).wrapping_add(1442695040888963407) >> 7;
+                match mag.checked_mul(b).and_then(|x| x.checked_add(g)) {
+                    Some(x) if x <= lim => mag = x,
+                    _ => break,
+                }
+            }
+            begin();
+            let r = check_int_value(t, neg, mag);
+            end();
+            match r {
+                None => (st, None),
+                Some(Err(e)) => (st, Some(int_violation(t, neg, mag, e))),
+                Some(Ok(())) => {
+                    st.evaluations = 1;
+                    if mag >= b {
+                        st.nontrivial.push(digest(&(t, neg, mag)));
+                    }
+                    (st, None)
+                }
+            }
+        });
+        merged.merge(m);
+    }
     // (3) thorough: exhaustive 32-bit types
     if merged.violation.is_none() && tier == Tier::Thorough {
         let m = run_parallel(|shard| {
@@ -489,7 +547,14 @@ fn check_pieces(d: &Pieces) -> Result<(), String> {
     // oracle: write! into a String
     let mut want = String::new();
     let want_res = write!(want, "{}", PiecesDisplay(d));
-    let got = PiecesDisplay(d).try_to_lean_string();
+    // the fallible form never unwinds because of a Display error: "yields Err(Fmt) instead of a partial string"
+    let got = match std::panic::catch_unwind(|| PiecesDisplay(d).try_to_lean_string()) {
+        Ok(g) => g,
+        Err(p) => {
+            let msg = p.downcast_ref::<String>().cloned().or_else(|| p.downcast_ref::<&str>().map(|s| s.to_string())).unwrap_or_default();
+            return Err(format!("try_to_lean_string of a Display in {} pieces (error position {:?}) panicked: {msg}", d.pieces.len(), d.err_at));
+        }
+    };
     match (want_res, got) {
         (Ok(()), Ok(s)) if s == want => {}
         (Ok(()), other) => return Err(format!("Display in {} pieces: try_to_lean_string gives {other:?}, expected Ok({want:?})", d.pieces.len())),
@@ -754,6 +819,38 @@ pub fn c15(tier: Tier, seed: u64) -> Verdict {
                 }
             }
         }
+        // the neighbours (+-3 ulp) of short decimals d / 10^j: where a "short decimal" shortcut would round
+        if m.violation.is_none() {
+            let top: u64 = tier.pick(120_000, 2_000_000);
+            let mut d = 1 + shard as u64;
+            'h: while d <= top {
+                for j in 1..=9i32 {
+                    for base in [d as f64 / 10f64.powi(j), d as f64 * 10f64.powi(-j)] {
+                        for k in -3i64..=3 {
+                            let bits = (base.to_bits() as i64 + k) as u64;
+                            m.evaluations += 1;
+                            if let Err(x) = check_f64(bits) {
+                                m.violation = Some(c15_violation(json!({"kind": "value", "domain": "f64", "bits": format!("{bits:#018x}")}), x));
+                                break 'h;
+                            }
+                        }
+                    }
+                    if j <= 6 {
+                        let base = d as f32 / 10f32.powi(j);
+                        for k in -3i32..=3 {
+                            let bits = (base.to_bits() as i32 + k) as u32;
+                            m.evaluations += 1;
+                            if let Err(x) = check_f32(bits) {
+                                m.violation = Some(c15_violation(json!({"kind": "value", "domain": "f32", "bits": format!("{bits:#010x}")}), x));
+                                break 'h;
+                            }
+                        }
+                    }
+                }
+                d += SHARDS as u64;
+            }
+            *m.counters.entry("short_decimal_neighbourhoods".into()).or_insert(0) += top / SHARDS as u64;
+        }
         if m.violation.is_none() {
             if let Some(d) = heap_clean() {
                 m.violation = Some(Violation { case: json!({"kind": "value", "domain": "sweep"}), clause: "C15.heap".into(), step: 0, detail: d });
@@ -863,7 +960,7 @@ pub fn c15(tier: Tier, seed: u64) -> Verdict {
         tier,
         seed,
         "exploration",
-        "both bools; all 1,112,064 chars (exhaustive); f32: every exponent x sign x 4096 mantissas (thorough: all 2^32 bit patterns); f64: every exponent x sign x 1000 mantissas plus proptest-random bit patterns; proptest texts through String / &str / Cow / Box<str> / user struct / LeanString in 4 storage states; 20 thin wrappers of primitives (Wrapping, Saturating, &, Box, Rc of floats, integers, bool, char) on random values biased to very small and very large magnitudes; piecewise Display impls (0-8 pieces, optional error position; also with each of the first three allocator requests refused, for impls that propagate or ignore write errors: never Ok with a partial text); oracle: to_string / write! into a String; floats: parse back to identical bits (NaN to NaN); non-trivial = subnormal/non-finite/boundary floats, 4-byte chars, non-ASCII or > 16-byte texts, multi-piece or failing displays; distinct values",
+        "both bools; all 1,112,064 chars (exhaustive); f32: every exponent x sign x 4096 mantissas (thorough: all 2^32 bit patterns); f64: every exponent x sign x 1000 mantissas plus proptest-random bit patterns; the +-3 ulp neighbourhoods of the short decimals d/10^j (d up to 120000, thorough 2 million; j up to 9) for f64 and f32; proptest texts through String / &str / Cow / Box<str> / user struct / LeanString in 4 storage states; 20 thin wrappers of primitives (Wrapping, Saturating, &, Box, Rc of floats, integers, bool, char) on random values biased to very small and very large magnitudes; piecewise Display impls (0-8 pieces, optional error position; also with each of the first three allocator requests refused, for impls that propagate or ignore write errors: never Ok with a partial text); oracle: to_string / write! into a String; floats: parse back to identical bits (NaN to NaN); non-trivial = subnormal/non-finite/boundary floats, 4-byte chars, non-ASCII or > 16-byte texts, multi-piece or failing displays; distinct values",
         ASSUME_VAL,
         &merged,
         t0.elapsed().as_secs_f64(),
@@ -1094,6 +1191,43 @@ pub fn c16(tier: Tier, seed: u64) -> Verdict {
                         }
                         m.distinct.insert(digest(&("long8", n, ti, fill.len())));
                     }
+                }
+            }
+        }
+        // inputs of several KiB with a multi-byte character / pair / invalid fragment straddling every power-of-two
+        // offset a block-wise decoder could cut at (256 ... 64 Ki bytes or units)
+        if m.violation.is_none() {
+            let btails: [&[u8]; 6] = [b"\xf0\x9d\x84\x9e", b"\xe2\x82\xac", b"\xff", b"\xf0\x9d\x84", b"\xc3\xa9", b"\xed\xa0\x80"];
+            let utails: [&[u16]; 4] = [&[0xd834, 0xdd1e], &[0xd800], &[0xdc00, 0xdc00], &[0x20ac]];
+            let mut idx = 0usize;
+            'b: for k in 8..=16u32 {
+                for back in 0..=5usize {
+                    idx += 1;
+                    if idx % SHARDS != shard {
+                        continue;
+                    }
+                    let n = (1usize << k) - back;
+                    for tail in btails.iter() {
+                        let mut b: Vec<u8> = vec![b'x'; n];
+                        b.extend_from_slice(tail);
+                        b.extend_from_slice(&vec![b'y'; 300 + (1 << k) / 2]);
+                        m.evaluations += 1;
+                        if let Err(d) = check_utf8(&b) {
+                            m.violation = Some(c16_violation(json!({"kind": "bytes", "hex": hex_encode(&b)}), d));
+                            break 'b;
+                        }
+                    }
+                    for tail in utails.iter() {
+                        let mut u: Vec<u16> = vec![0x78; n];
+                        u.extend_from_slice(tail);
+                        u.extend(std::iter::repeat_n(0xe9u16, 300 + (1 << k) / 2));
+                        m.evaluations += 1;
+                        if let Err(d) = check_utf16(&u) {
+                            m.violation = Some(c16_violation(json!({"kind": "units", "units": u}), d));
+                            break 'b;
+                        }
+                    }
+                    m.distinct.insert(digest(&("block", k, back)));
                 }
             }
         }
